@@ -270,7 +270,8 @@ def build_item(repo: str, blk: dict, report: dict):
         return [(p, "glue") for p in blk["prefix"]] + lines
     # --- function: split signature / body on the rewritten text
     mask = mask_source(text)
-    kw = re.search(r"\bfn\s+" + re.escape(name) + r"\b", mask).start()
+    # (a rewrite may have renamed the function -- a second, differently typed copy of the same source function)
+    kw = (re.search(r"\bfn\s+" + re.escape(name) + r"\b", mask) or re.search(r"\bfn\s+\w+", mask)).start()
     p_open = mask.find("(", kw)
     p_close = match_brace(mask, p_open)
     b_open = find_body_open(mask, p_close + 1)
